@@ -199,6 +199,14 @@ CHECKS = {
         "DIMSE provider is scripted; identifiers that make pydicom raise stand for undecodable data.",
         "3/C24",
     ),
+    "C25": (
+        "exploration",
+        "enum",
+        "enumeration of datasets x transfer syntaxes x PDU sizes x chunked modes x operations, each run end to end between two real AEs under the simulator",
+        "Datasets built from an 18-element pool covering the VR classes (each element alone, the full pool, pairs), four transfer syntaxes, maximum PDU 0 / 16382 / small values that split inside element headers, chunked send and chunked receive on and off, C-STORE, C-FIND identifier and response, C-GET sub-operation and four DIMSE-N request/response pairs: at the peer handler the decoded dataset, the raw encoded bytes and the chunked-receive file must each equal the original, and response datasets must equal at the SCU.",
+        "pydicom's dataset codec and equality are trusted; private elements excluded.",
+        "3/C25",
+    ),
     "C26": (
         "model_checking",
         "sim",
